@@ -113,6 +113,67 @@ static void condScenario(Rng& rng)
 	vsched::hook(105, 0, 0);
 }
 
+// start/join/finished() under scheduling noise, hooks silent (the window between pthread_create() and the creator's next
+// instruction is too small to hit while every step is being logged): R rounds of subclassed and lambda threads whose
+// bodies are empty or a single store; counts the rounds in which join() returned and finished() was false or the body
+// had not run exactly once.  One summary event: {"k":121,"o":rounds,"v":failures}.
+struct Quick : public Thread
+{
+	volatile int* n;
+	void run() { if (n) (*n)++; }
+};
+static volatile bool g_noiseStop;
+static void* noiseMain(void*)
+{
+	volatile unsigned x = 1;
+	while (!g_noiseStop) { for (int i = 0; i < 20000; i++) x = x * 1664525u + 1013904223u; sched_yield(); }
+	return 0;
+}
+static long startJoinRounds(Rng& rng, int rounds, long* failures)
+{
+	g_noiseStop = false;
+	int nn = rng.range(8, 24);
+	pthread_t noise[24];
+	for (int i = 0; i < nn; i++) pthread_create(&noise[i], 0, noiseMain, 0);
+	long bad = 0;
+	for (int r = 0; r < rounds; r++)
+	{
+		int k = rng.below(3);
+		volatile int n = 0;
+		if (k == 0)
+		{
+			Quick t[4];
+			volatile int cnt[4] = { 0, 0, 0, 0 }; // one counter per thread (a shared one would be the harness' own race)
+			int m = rng.range(1, 4);
+			for (int i = 0; i < m; i++) { t[i].n = rng.chance(50) ? &cnt[i] : 0; t[i].start(); }
+			for (int i = 0; i < m; i++)
+			{
+				t[i].join();
+				if (!t[i].finished()) bad++;
+				if (t[i].n && cnt[i] != 1) bad++;
+			}
+		}
+		else if (k == 1)
+		{
+			Thread t([&n]() { n++; });
+			t.join();
+			if (!t.finished() || n != 1) bad++;
+		}
+		else
+		{
+			Thread t([]() {});
+			if (rng.chance(50)) sched_yield();
+			t.join();
+			if (!t.finished()) bad++;
+			if (!t.finished()) bad++; // "true from then on"
+		}
+	}
+	g_noiseStop = true;
+	for (int i = 0; i < nn; i++) pthread_join(noise[i], 0);
+	*failures = bad;
+	return rounds;
+}
+
 int main(int argc, char** argv)
 {
 	Args args(argc, argv);
@@ -121,8 +182,17 @@ int main(int argc, char** argv)
 	FILE* f = fopen(args.out.c_str(), "w");
 	if (!f) { perror("out"); return 2; }
 	long events = 0;
+	int round = 0;
 	while (events < args.events)
 	{
+		if (round++ % 3 == 0)
+		{
+			long failures = 0;
+			long n = startJoinRounds(rng, rng.range(300, 1500), &failures);
+			fprintf(f, "{\"k\":0,\"t\":0,\"o\":0,\"v\":0}\n{\"k\":121,\"t\":0,\"o\":%ld,\"v\":%ld}\n", n, failures);
+			events += 2;
+			continue;
+		}
 		vsched::beginFree(rng.next(), rng.range(0, 60));
 		if (rng.chance(65)) semScenario(rng); else condScenario(rng);
 		vsched::end();
